@@ -323,6 +323,44 @@ func extractC08() *lean {
 	strs("stateStartRepairCalls", c08Calls(c08Method(st, "state", "Start"), "s.xorTreeRepair."))
 	strs("repairLoopCalls", c08Calls(c08Method(cs, "xorTreeRepair", "start"), "f."))
 	strs("condsCheckPage", c08Conds(funcDecl(cs, "checkPage")))
+	strs("checkPageDbCalls", c08Calls(funcDecl(cs, "checkPage"), "f.state.graph.db."))
+	{
+		var body []string
+		if fd := funcDecl(cs, "checkPage"); fd != nil {
+			ast.Inspect(fd, func(n ast.Node) bool {
+				c, ok := n.(*ast.CallExpr)
+				if !ok || exprString(c.Fun) != "f.state.graph.db.Write" || len(c.Args) < 2 {
+					return true
+				}
+				if fl, ok := c.Args[1].(*ast.FuncLit); ok {
+					ast.Inspect(fl.Body, func(m ast.Node) bool {
+						if c2, ok := m.(*ast.CallExpr); ok && strings.HasPrefix(exprString(c2.Fun), "f.state.") {
+							body = append(body, exprString(c2.Fun))
+						}
+						return true
+					})
+				}
+				return false
+			})
+		}
+		strs("checkPageWriteBody", body)
+		dirtyKeys := func(fn string) []string {
+			var r []string
+			if fd := funcDecl(tr, fn); fd != nil {
+				ast.Inspect(fd, func(n ast.Node) bool {
+					if as, ok := n.(*ast.AssignStmt); ok && len(as.Lhs) == 1 {
+						if ix, ok := as.Lhs[0].(*ast.IndexExpr); ok && exprString(ix.X) == "t.dirtyLeaves" {
+							r = append(r, exprString(ix.Index))
+						}
+					}
+					return true
+				})
+			}
+			return r
+		}
+		strs("replaceDirtyKeys", dirtyKeys("Replace"))
+		strs("updatePathDirtyKeys", dirtyKeys("updateOrCreatePath"))
+	}
 	strs("signalCalls", append(c08Calls(c08Method(st, "state", "IncorrectStateDetected"), "s."), c08Calls(c08Method(st, "state", "CorrectStateDetected"), "s.")...))
 	strs("newStateTreeStores", c08CallsSrc(stFset, funcDecl(st, "NewState"), "newTreeStore"))
 	var diag []string
